@@ -58,8 +58,12 @@ pub fn run(ctx: &Ctx) {
         ctx.eval("consecutive");
         // both entropies are runs of the handed-out bytes, the second strictly after the first (however the bytes were fetched)
         let ent = |p: &Result<Option<String>, String>| p.as_ref().ok().and_then(|o| o.as_ref()).and_then(|ph| bip39::tokens_to_entropy(&ph.split(' ').collect::<Vec<_>>()).ok());
-        let find = |e: &[u8], from: usize| (from..handed.len().saturating_sub(e.len()) + 1).find(|k| handed[*k..*k + e.len()] == *e);
-        let ok = match (ent(&p1), ent(&p2)) { (Some(e1), Some(e2)) if e1.len() == e && e2.len() == e => match find(&e1, 0) { Some(k1) => find(&e2, k1 + e).is_some(), None => false }, _ => false };
+        // (an implementation that buffers entropy for the whole process may serve both from bytes it fetched during an earlier
+        // case: then they are consecutive runs of everything the scripted sources of this process handed out)
+        let all = ALL_HANDED.lock().map(|a| a.clone()).unwrap_or_default();
+        let find_in = |hay: &[u8], e: &[u8], from: usize| if hay.len() < e.len() + from { None } else { (from..hay.len() - e.len() + 1).find(|k| hay[*k..*k + e.len()] == *e) };
+        let consecutive = |hay: &[u8], e1: &[u8], e2: &[u8]| { let mut from = 0; loop { match find_in(hay, e1, from) { None => break false, Some(k1) => { if find_in(hay, e2, k1 + e1.len()).is_some() { break true; } from = k1 + 1; } } } };
+        let ok = match (ent(&p1), ent(&p2)) { (Some(e1), Some(e2)) if e1.len() == e && e2.len() == e => consecutive(&handed, &e1, &e2) || consecutive(&all, &e1, &e2), _ => false };
         if !ok { ctx.violation(format!("{P}:random:len={len},consecutive:repeated-or-derived"), "two consecutive generations do not carry their own, consecutive bytes of the entropy source", json!({"sweep": "consecutive-generations", "index": i, "length": len})) }
     });
     // runs of generations on ONE fresh thread: every generation has the requested length and carries its own bytes of the
@@ -79,7 +83,9 @@ pub fn run(ctx: &Ctx) {
                 Ok(None) => { ctx.eval(format!("run:{name}:error")); ctx.violation(format!("{P}:random:run,{name}:error"), format!("generation {} of the run fails although the entropy source answered every request", k + 1), replay); return; }
                 Ok(Some((phrase, parses))) => { let toks: Vec<&str> = phrase.split(' ').collect();
                     let ent = match bip39::tokens_to_entropy(&toks) { Ok(e) if toks.len() == *l && *parses => e, _ => { ctx.eval(format!("run:{name}:bad-phrase")); ctx.violation(format!("{P}:random:run,{name}:wrong-length-or-invalid"), format!("generation {} of the run, asked for {l} words, produced '{phrase}'", k + 1), replay); return; } };
-                    match (from..handed.len().saturating_sub(ent.len()) + 1).find(|p| handed[*p..*p + ent.len()] == ent[..]) { Some(p) => from = p + ent.len(),
+                    let found = if handed.len() < ent.len() + from { None } else { (from..handed.len() - ent.len() + 1).find(|p| handed[*p..*p + ent.len()] == ent[..]) };
+                    match found { Some(p) => from = p + ent.len(),
+                        None if ALL_HANDED.lock().map(|a| a.windows(ent.len()).any(|w| w == ent.as_slice())).unwrap_or(false) => { ctx.eval(format!("run:{name}:served-from-bytes-fetched-during-an-earlier-case")); }
                         None => { ctx.eval(format!("run:{name}:entropy-not-from-source")); ctx.violation(format!("{P}:random:run,{name}:entropy-not-own-bytes"), format!("generation {} of the run carries entropy {} which is not a run of the source's bytes after those of generation {}", k + 1, explore::hex(&ent), k), replay); return; } } }
             }
         }
